@@ -664,6 +664,13 @@ impl Drv {
                 }
             }
             "STATUS" => "ok".to_owned(),
+            "MSGS" => {
+                // ["MSGS"]: the pending (not yet delivered / not yet reset) errors and warnings, full text
+                let st = self.story.as_ref().unwrap();
+                let e: Vec<String> = st.get_current_errors().iter().map(|m| q(m)).collect();
+                let w: Vec<String> = st.get_current_warnings().iter().map(|m| q(m)).collect();
+                format!("ok(E[{}] W[{}])", e.join(","), w.join(","))
+            }
             _ => "badop".to_owned(),
         }
     }
